@@ -11,11 +11,15 @@ COMMON_NOTE = ("Trusted: Lean 4.33 kernel; axioms propext/Classical.choice/Quot.
                "(tie A) and the differential harness + compiled model driver (tie B); GoStd re-implementation of the Go "
                "stdlib functions used (validated by stream std). ")
 
+PIPE_TEXT = ("Executable Lean model of the whole per-message pipeline (handleRawMessage, handleDialog, HandleMessage, transport table, pins, rotation) tied to proxy.go/message.go/transport.go by differential execution through the REAL loop goroutine of assembled Proxy objects: outputs (destination, bytes), transport-table changes and state snapshots must be identical; predictions derived from the abstract case are checked on the implementation's output. Theorems about the model are in Props/.")
+PIPE_NOTE = "Partial: sockets, goroutine scheduling and the OS are outside the model; DNS misses count as failures; time does not pass inside a case."
+PIPE_TECH = "Lean model + differential pipeline correspondence with abstract-case oracles"
+
 CLAIMS = {
     "C05": ("proof", "Lean theorems over the RoundRobinBackend model for every state and history: target is a current member, empty set drops, any k consecutive dispatches are a permutation of the k backends from any cursor, floor/ceil counts, removed/added membership, list/map agreement for every well-formed history, and the racing theorem over the three locked steps. Tied to backend.go by exhaustive (all sequences to length 5/7) and random differential histories on the real RoundRobinBackend, with the rotation oracle evaluated on the implementation's trace.",
             "7 C05", "Partial on schedules: interleavings are those of the locked steps; sync.Mutex, the Go scheduler and memory model are trusted. The theorem that the trace oracle accepts every model history is not yet proved (the oracle runs on the implementation only).",
             "Lean proof (invariants, induction over histories, List.rotate_perm) + differential correspondence"),
-    "C14": ("proof", "Round-trip theorems over the codec model (in progress: key/value layer proved; per-type theorems being added) tied to the Go parsers/encoders by a grammar-directed differential stream whose expected decodes come from the abstract value, independently of code and model; stdlib micro-correspondence underneath.",
+    "C14": ("proof", "Lean theorems over the codec model (split/join inverse laws; per-type round-trip theorems being extended) tied to the Go parsers/encoders by a grammar-directed differential stream whose expected decodes and accessor values are computed from the abstract value, independently of code and model; stdlib micro-correspondence underneath.",
             "7 C14", "IPv6 references and ';'/'?' in user parts are the property's own known findings (known_findings.json). Unicode case folding of header names outside ASCII is not modelled.",
             "Lean proof (split/join inverse laws) + grammar-directed differential correspondence"),
     "C15": ("proof", "Lean theorems over the DialogBasedBackend model with explicit time, for arbitrary histories of add/get/remove at non-decreasing instants: a pin is honoured strictly before t0+max(timeout,Expires) whatever else happens, never from that instant on, gone after remove, and (sweep invariant) after any add no entry that expired more than one timeout earlier survives, whatever Expires values were used. Tied to backend.go by differential histories on the real object under a virtual clock (stored instants shifted), with the lifetime/purge oracle evaluated on the implementation.",
@@ -30,6 +34,34 @@ CLAIMS = {
     "C20": ("proof", "Lean theorems over the send loops for every fault oracle: success implies exactly one completed write, error implies none (client transport, TCP backend, fail-over), fallback to a fresh connection within the same send, refusal yields an error (total functions: no hang), the working connection is reused first. Tied to transport.go/backend.go by the exhaustive fault-pattern stream (scripted connection doubles x real loopback listener up/down x 1-3 messages).",
             "7 C20", "Partial: 'written' means Write returned nil; accept-then-reset peers are not scripted (outcome depends on RST timing).",
             "Lean proof (loop induction over fault oracles) + exhaustive fault enumeration"),
+    "C01": ("proof", PIPE_TEXT + " C01: the relay oracle (start line, every non-routing header with name/value/multiplicity/order, body, exactly one Content-Length equal to the body size) is evaluated with an independent reader on every relayed message of every path.",
+            "7 C01", PIPE_NOTE, PIPE_TECH),
+    "C02": ("proof", PIPE_TEXT + " C02: responses with 1-6 Via entries in every layout; expected destination (received/rport/sent-by/default port, host table, supported transports) and remaining Via stack predicted from the abstract case.",
+            "7 C02", PIPE_NOTE, PIPE_TECH),
+    "C03": ("proof", PIPE_TEXT + " C03: the decision table {Route} x {static route} x {Request-URI} x {keep} x {transport}; exactly one destination by fixed precedence or none.",
+            "7 C03", PIPE_NOTE + " The service-name regexp verdict is an oracle computed by the generator.", PIPE_TECH),
+    "C04": ("proof", PIPE_TEXT + " C04: histories of 1-50 concurrent dialogs over 2-6 backends, pins by INVITE answers from a backend address and by SUBSCRIBE answers towards a backend, in-dialog requests of every method in both directions, unrelated traffic, early termination.",
+            "7 C04", PIPE_NOTE + " Pin expiry is C15's subject (no time passes inside one case).", PIPE_TECH),
+    "C06": ("proof", PIPE_TEXT + " C06: own Via (listener transport/address/port, fresh z9hG4bK branch) on top, Record-Route by policy, learned / not learned next hops, one or several listeners; branch freshness is counted over the run.",
+            "7 C06", PIPE_NOTE + " Freshness of branches rests on uuid.NewRandom (oracle).", PIPE_TECH),
+    "C07": ("proof", PIPE_TEXT + " C07: stamping of received/rport on the sender's Via for both values of received-support; the YAML wiring of no-received into every listener constructor is a kernel-checked obligation on regenerated call-site facts (Expected.Wiring) and is exercised end to end by the wire stage (real startProxy, UDP and TCP, response returns to the true source).",
+            "7 C07", PIPE_NOTE, "Lean obligation on regenerated wiring facts + differential pipeline correspondence + wire stage"),
+    "C12": ("proof", PIPE_TEXT + " C12: 2-8 simultaneous connection doubles from 127.0.0.1 with equal/different sent-by, interleaved transactions, provisional and first final responses must be written on the connection the request used; the transport table is compared with the model after every case.",
+            "7 C12", PIPE_NOTE + " Hypotheses: methods without '-', sent-by IP literals or received-support on (D17), entries younger than one hour.", PIPE_TECH),
+    "C13": ("proof", PIPE_TEXT + " C13: Route sets of 0-6 entries in any layout; own entry by address/alias/with and without port, near misses, keep-next-hop-route on/off; the relayed Route stack is predicted from the abstract case.",
+            "7 C13", PIPE_NOTE, PIPE_TECH),
+    "C17": ("proof", PIPE_TEXT + " C17: metamorphic twins (same structure stream, different spelling/layout stream) are compared pairwise on destination, Via/Route/Record-Route stacks, remaining headers up to name class, and body; plus the obligation that no header name is compared with == anywhere (Expected.Wiring).",
+            "7 C17", PIPE_NOTE, "metamorphic differential correspondence + Lean obligation on regenerated facts"),
+    "C16": ("proof", "Dialog identity: exhaustive assignments over small alphabets (incl. equal URIs, equal tags, '-'-containing values) x both orientations x request/response x decorations, plus random long identifiers, through the real GetDialog; the oracle demands a bijection between abstract dialog keys and implementation identifiers over the whole run; model and implementation identifiers are compared byte for byte. Theorems on the identifier function are being added to Props/C16.",
+            "7 C16", "Components free of blanks (true of Call-IDs, tags and URIs).", "differential correspondence with bijection oracle + Lean model"),
+    "C10": ("proof", "UDP isolation: every datagram is pushed through the REAL parse loop (startParseMessage) in a clean and in a dirty 64 KiB buffer; cut, over- and under-declared datagrams; identical outcome required and over-declared/truncated ones must be rejected; pool exclusivity by exhaustive and random Alloc/Free histories against the pool model. Theorems in Props/C10.",
+            "7 C10", "Partial: kernel datagram boundaries and the scheduler are not modelled.", "Lean model + differential correspondence (clean/dirty buffers)"),
+    "C11": ("proof", "TCP framing: generated message sequences under scripted segmentations (exhaustive single and double cuts of short streams, random multi-cuts down to 1-byte segments, header lines up to 20 KiB, SIP-looking bodies, keep-alives) through ParseMessage on one bufio.Reader; the model extracts messages from the joined stream, so any dependence on segmentation is a disagreement. Theorems in Props/C11.",
+            "7 C11", "Partial: bufio.Reader is represented by its contract.", "Lean model + exhaustive/random segmentation correspondence"),
+    "C08": ("proof", "Robustness: accept/reject of arbitrary mutated byte strings compared with the model's total parser (Lean's termination checker = no input-dependent non-termination in the modelled code); robustness oracle (no panic, allocation bounded by bytes received) on the parser and on the whole pipeline for hostile field values over UDP and TCP paths; liveness probes after hostile input; a dying harness process is attributed to the op that killed it. Thorough tier adds Go's coverage-guided fuzzer on the same entry point.",
+            "7 C08", "Partial: Go runtime, GC, channel back-pressure, DNS latency and kernel buffers are not modelled; nil dereferences are not inventoried.", "total Lean model + differential correspondence + robustness oracle"),
+    "C09": ("proof", "Concurrency: several real Proxy loops of one service (shared self-learned route table) are fed concurrently while backends are added/removed and the pool, transport table and a resolver are used from other goroutines, under the Go race detector; every request must reach exactly one backend; every data-race report is a violation keyed by its two code locations. The sharing facts (one SelfLearnRoute per service, one Proxy per listener) are kernel-checked obligations on regenerated wiring facts.",
+            "7 C09", "Partial: the Go memory model and scheduler are not modelled (DRF-SC trusted); AddBackend/RemoveBackend send to the loop's event channel (capacity 1000) while holding the rotation lock - assumed never full.", "race-detector stress + Lean obligation on regenerated sharing facts"),
 }
 
 
